@@ -86,7 +86,7 @@ PROPS = {
         "assumptions": ["G9.UfsLogic mirrors the arithmetic/decision logic of ufs.go and the client file helpers (checked by the differential run)", "runs as the current user; permission-denied outcomes are never required"],
     },
     "C15": {
-        "rule": 'real directories of 0,1,2,3,7,50 (thorough: thousands of) entries with name lengths 1..255, msize 304..64K, both dialects: full listing decoded record by record and compared with the directory; Readdir(0); for small directories every count from the largest entry to three entries at every entry boundary, too-small counts, random counts, listing with a random count per read; offsets the rule does not allow (inside an entry, past the end, 2^62, 2^64-1); each probe compared with the Lean window. non-trivial = distinct probes that returned data',
+        "rule": 'real directories of 0,1,2,3,7,50 (thorough: thousands of) entries with name lengths 1..255, msize 304..64K, both dialects: full listing decoded record by record and compared with the directory; Readdir(0) from a fresh open and from a moved offset compared with the Lean model of the client loop (entries, order, offset left); for small directories every count from the largest entry to three entries at every entry boundary, too-small counts, random counts, listing with a random count per read; offsets the rule does not allow (inside an entry, past the end, 2^62, 2^64-1); each probe compared with the Lean window. non-trivial = distinct probes that returned data',
         "modelled": ['modelled, not verified: everything the operating system does (Lstat, ReadAt, WriteAt, Readdir, Mkdir, Symlink, Link, Remove, Rename, Truncate, Chmod, Chtimes), os/user, time; sort.SearchInts as first-index->= on a sorted slice'],
         "assumptions": ["G9.UfsLogic mirrors the arithmetic/decision logic of ufs.go and the client file helpers (checked by the differential run)", "runs as the current user; permission-denied outcomes are never required"],
     },
@@ -129,7 +129,8 @@ PROPS = {
                 "goroutine), released in a random permutation (every permutation of up to 5 over the seeds), 1/5 answered twice, "
                 "Maxpend in {0,1,8,64}, 1..3 rounds per connection (reply buffers recycled), random yields/sleeps at the library's "
                 "schedule points; rolling windows that reuse a tag the moment its reply arrives while the answered request is held "
-                "between queueing and unlinking. Oracle on the decoded wire: one frame per request with its tag, matching type or "
+                "between queueing and unlinking; a Tflush waiting on an executing request while the writer is held up by a "
+                "slow reader (the reply precedes the Rflush). Oracle on the decoded wire: one frame per request with its tag, matching type or "
                 "Rerror, content equal to what the implementation produced, no other frame. non-trivial = distinct scenarios",
         "modelled": ["modelled, not verified: goroutines as program counters; each event is one lock-protected region or one channel "
                      "operation of srv_conn.go/srv_srv.go/srv_fcall.go; Go mutexes, channels (FIFO) and the scheduler are trusted; "
@@ -178,7 +179,8 @@ PROPS = {
                 "(recv, send, process, Respond) back to the bystander's two; bystander still served and untouched. "
                 "Fid-table schedules: requests parked at the door of retain, between DecRef's two regions and before the FidDestroy "
                 "call while the client disconnects (before and after Conn.close returned), a request using a fid whose Tclunk has "
-                "dropped the last reference with the number reused afterwards, bursts of pipelined walks/stats/clunks; every region of "
+                "dropped the last reference with the number reused afterwards, a second request creating a fid number that an "
+                "executing request is creating, bursts of pipelined walks/stats/clunks; every region of "
                 "the fid table is logged from inside its lock and replayed on G9.FidLife; at the end the model state must be quiescent "
                 "and FidDestroy seen exactly once per fid object. non-trivial = distinct scenarios",
         "modelled": ["modelled, not verified: goroutines as program counters; each event is one lock-protected region or one channel "
@@ -199,7 +201,7 @@ PROPS = {
         "race": True,
         "rule": "race-detector build of the harness: 2..8 goroutines sharing one client against Ufs on a scratch tree (each on its own files and "
                 "fids, all walks from the shared root fid, a file everybody reads), flushes with live targets on distinct fids with and "
-                "without FlushOp, connections opened and dropped (quiescent) while another stays busy, schedule perturbation at the "
+                "without FlushOp (answers from the handler and from goroutines of the implementation's own), connections opened and dropped (quiescent) while another stays busy, schedule perturbation at the "
                 "library's schedule points; every detector report with a library frame is a failure (signature: the racing functions). "
                 "Static half: lock sets of every field access regenerated from the syntax tree and checked against the policy in Lean. "
                 "non-trivial = distinct workloads",
